@@ -221,7 +221,7 @@ def path(c, job):
         return
     # ---- selection + lifecycle -------------------------------------------------------
     keys = sorted(names.values())
-    src = c.choose("dashboard", 3)  # absent / names a mode / names no mode
+    src = c.choose("dashboard", 4)  # absent / names a mode / names no mode / the literal string "None"
     choose_keys = ["<default>"] + keys + ["None"]
     ck = choose_keys[c.choose("chooser", len(choose_keys))]
     if ck != "<default>":
@@ -234,6 +234,8 @@ def path(c, job):
         c.reach("dashboard-selects")
     elif src == 2:
         env.sd["Auto Selector"] = "no such mode"
+    elif src == 3:
+        env.sd["Auto Selector"] = "None"  # not the name of a mode: the chooser selection decides
     chosen = None if chosen_key == "None" else [cn for cn in healthy if names[cn] == chosen_key][0]
     del reg.LOG[:]
     exp = []
